@@ -33,21 +33,26 @@ def replay(rep, record):
 
 def run(rep, work, tier, seed):
     if tier == "quick":
-        mc = dict(NTasks=3, MaxDepth=3, MaxScopes=4, MaxOps=8, Bug="none")
-        conf = dict(NTasks=3, MaxDepth=3, MaxScopes=3, MaxOps=5, Bug="none")
+        mc = dict(NTasks=3, MaxDepth=3, MaxScopes=4, MaxOps=8, Bug="none", Turn=False)
+        conf = dict(NTasks=3, MaxDepth=3, MaxScopes=3, MaxOps=5, Bug="none", Turn=False)
     else:
-        mc = dict(NTasks=4, MaxDepth=3, MaxScopes=4, MaxOps=8, Bug="none")
-        conf = dict(NTasks=3, MaxDepth=3, MaxScopes=4, MaxOps=6, Bug="none")
+        mc = dict(NTasks=4, MaxDepth=3, MaxScopes=4, MaxOps=8, Bug="none", Turn=False)
+        conf = dict(NTasks=3, MaxDepth=3, MaxScopes=4, MaxOps=6, Bug="none", Turn=False)
     rep.extra["constants"] = dict(model=mc, conformance=conf)
     leg_m(rep, work, SPEC, f"mc_{tier}", cfg_text(mc, spec="Spec", invariants=INVS, properties=PROPS),
           expect_actions=["Cancel", "CtxCancel", "Check", "Leave", "Fail"], timeout=3000)
     if tier == "thorough":
-        small = dict(NTasks=3, MaxDepth=2, MaxScopes=2, MaxOps=5)
+        small = dict(NTasks=3, MaxDepth=2, MaxScopes=2, MaxOps=5, Turn=False)
         leg_mutant(rep, work, SPEC, "mutant_swallow_wait_cancel",
                    cfg_text(dict(small, Bug="swallow_wait_cancel"), invariants=INVS), ["NotSwallowed"])
         leg_mutant(rep, work, SPEC, "mutant_check_never",
                    cfg_text(dict(small, Bug="check_never"), spec="Spec", invariants=INVS, properties=PROPS), ["CheckAgrees"])
     leg_r(rep, work, SPEC, f"conf_{tier}", cfg_text(conf, invariants=INVS), ScopeTasksDriver, world=True)
+    # a member that answers its cancellation with an exception of its own (SetTurn): the owner's cancellation still counts
+    turn = dict(NTasks=3, MaxDepth=2, MaxScopes=2, MaxOps=6 if tier == "quick" else 7, Bug="none", Turn=True)
+    leg_m(rep, work, SPEC, f"turn_mc_{tier}", cfg_text(turn, spec="Spec", invariants=INVS, properties=PROPS), expect_actions=["SetTurn"],
+          timeout=3000)
+    leg_r(rep, work, SPEC, f"turn_conf_{tier}", cfg_text(turn, invariants=INVS), ScopeTasksDriver, world=True)
     # cancellation at the suspension points INSIDE __aenter__ / __aexit__ (disposables, rollback, exit wait)
     life = dict(ND=2, NC=1, Behaviours=["ok", "fail", "susp"], Bug="none") if tier == "quick" else \
         dict(ND=2, NC=2, Behaviours=["ok", "fail", "susp"], Bug="none")
